@@ -17,6 +17,7 @@ S = 'photutils/aperture/stats.py::ApertureStats'
 
 
 def register(reg):
+    register_masks(reg)
     box = '(0, data_cutout.shape[0]), (0, data_cutout.shape[1])'
     w = 'apermask.data[j + slc_small[0].start, i + slc_small[1].start]'
     m = 'self._mask[j + slc_large[0].start, i + slc_large[1].start]'
@@ -123,3 +124,50 @@ def register(reg):
         # (dropping `.astype(float, copy=True)` is an equivalent change: the subtraction already
         # yields a fresh float array)
     ))
+
+
+def register_masks(reg):
+    """Which aperture masks the statistics are made from: the sum-method masks are the aperture's
+    masks for the configured ``sum_method`` *and* ``subpixels`` (whatever their values), the centre
+    masks are its 'center' masks; a scalar aperture's single mask is wrapped in a 1-tuple.
+    apmask_(aperture, code of the method, subpixels) names what PixelAperture.to_mask returns."""
+    reg.record('ApertureMaskSetToken', {'idx': 'int'})
+    reg.record('PixelApertureToken', {'idx': 'int'})
+    reg.add(Contract(
+        target='photutils/aperture/core.py::PixelApertureToken.to_mask', props=['C16'], kind='method',
+        params={'self': 'PixelApertureToken', 'method': 'str', 'subpixels': 'int'},
+        defaults={'method': 'exact', 'subpixels': 5},
+        ensures=[('names-the-masks', 'result.idx == apmask_(self.idx, code_(method), subpixels)')],
+        returns='ApertureMaskSetToken', assumed=True,
+        note='apmask_ names the masks PixelAperture.to_mask makes for a method and a subpixels '
+             'value (what they are is the business of the C01 / C02 contracts)',
+    ))
+    for sm in ('exact', 'subpixel', 'center'):
+        for scalar in (False, True):
+            rec = f'ApertureStats@masks-{sm}-{"scalar" if scalar else "many"}'
+            reg.record(rec, {'_pixel_aperture': 'PixelApertureToken', 'sum_method': ('const', sm),
+                             'subpixels': 'pos', 'isscalar': ('const', scalar),
+                             # (the cached centre masks: some other mask set, available to the code)
+                             '_aperture_masks_center': 'ApertureMaskSetToken'})
+            get = 'result[0].idx' if scalar else 'result.idx'
+            reg.add(Contract(
+                target=f'{S}._aperture_masks', props=['C16'], kind='property',
+                tag=f'{sm}-{"scalar" if scalar else "many"}', params={'self': rec},
+                ensures=[('masks-of-the-configured-method-and-subpixels',
+                          f'{get} == apmask_(self._pixel_aperture.idx, code_("{sm}"), self.subpixels)')]
+                + ([('one-mask-in-a-tuple', 'len(result) == 1')] if scalar else []),
+                mutants=[('subpixels=self.subpixels)', 'subpixels=5)'),
+                         ('method=self.sum_method,', "method='center',")] if sm != 'center' else
+                        [('subpixels=self.subpixels)', 'subpixels=5)')],
+            ))
+    for scalar in (False, True):
+        rec = f'ApertureStats@cmasks-{"scalar" if scalar else "many"}'
+        reg.record(rec, {'_pixel_aperture': 'PixelApertureToken', 'isscalar': ('const', scalar)})
+        get = 'result[0].idx' if scalar else 'result.idx'
+        reg.add(Contract(
+            target=f'{S}._aperture_masks_center', props=['C16'], kind='property',
+            tag='scalar' if scalar else 'many', params={'self': rec},
+            ensures=[('centre-method-masks',
+                      f'{get} == apmask_(self._pixel_aperture.idx, code_("center"), 5)')],
+            mutants=[("to_mask(method='center')", "to_mask(method='exact')")],
+        ))
